@@ -172,6 +172,18 @@ theorem getField_checks_length (w : Nat) (bs s rest : Bytes) (h : getField w bs 
       · simp [c2] at h
     · simp [c1] at h1
 
+/-- **byte_model_follows_source_layout**: the byte-level model writes and reads the sections that the `[WRITE_*]` and
+    `[READ_*]` blocks of binaries.c name, in their order, with their length-field widths; the ids of the preamble have
+    the widths the C variables have; the four counts are 16-bit members of `program_t` (all read from the source or
+    produced by the C compiler on every run) -/
+theorem byte_model_follows_source_layout :
+    Gen.C17.writeLayout = modelLayout ∧ Gen.C17.readLayout = ("CHECKSUM", 32) :: modelLayout.dropLast ∧
+      Gen.C17.driverIdBytes = 4 ∧ Gen.C17.configIdBytes = 8 ∧ Gen.C17.magicId.length = 4 ∧
+      Gen.C17.sizeofCount = 2 ∧ Gen.C17.sizeofFunctionNumber = 2 ∧
+      Gen.C17.offNumInherited + 2 ≤ Gen.C17.sizeofProgram ∧ Gen.C17.offNumStrings + 2 ≤ Gen.C17.sizeofProgram ∧
+      Gen.C17.offNumVariablesDefined + 2 ≤ Gen.C17.sizeofProgram ∧ Gen.C17.offNumFunctionsDefined + 2 ≤ Gen.C17.sizeofProgram := by
+  decide
+
 /-- non-vacuity: a small image (2 strings, 1 function, no inherits; the counts sit at the real offsets) -/
 def sampleImage : BinImage :=
   let prog : Bytes := (List.replicate 158 0) ++ [1, 0, 2, 0, 0, 0, 0, 0, 0, 0]
